@@ -923,6 +923,21 @@ func c13Direct(c *Ctx, r *Result, idx int, seed int64, nearMiss, overlap bool, c
 			if covered {
 				r.hist(fmt.Sprintf("direct:hyp:covered-run:wf=%v,clean=%v", wf, clean))
 			}
+			if wf && clean && perr == nil && (g.tags["overlap"] || g.tags["symlinked-parent-outside"]) {
+				// a leaf below a symlinked directory: the abstract file system has no entry there
+				// ("missing"), the real code resolves the parent (not modelled; F20 / F23)
+				r.hist("direct:record-half:skipped-symlinked-parent")
+			} else if wf && clean && perr == nil {
+				// the hypotheses of content_preserved(_record) hold on this input: the real record must
+				// be the one the theorem promises (every file leaf -> its destination path / null)
+				r.hist("direct:record-half:checked")
+				xr := strings.Split(c.Drv.Ask("C13.run", "x", "g", hx(ps), hx(outsPath), c13EncParams(params), outs.encStr(), before.enc(c13Ancestors(root))), "\t")
+				if len(xr) != 2 || unhx(xr[0]) != realStr {
+					r.violate(Violation{Kind: "correspondence", Key: "C13:model-record-half", Broken: "content_preserved_record (pureOuts / expectVal)",
+						What:  "wfParams and Clean hold, but the real rewritten record is not the input with every file leaf replaced by its destination path / null",
+						Input: cas, Impl: strings.ReplaceAll(realStr, root, "$ROOT"), Model: strings.ReplaceAll(unhx(xr[0]), root, "$ROOT")})
+				}
+			}
 			if !wf || (covered && !clean) {
 				r.violate(Violation{Kind: "correspondence", Key: "C13:hypothesis-fails-on-covered-run", Broken: "dest_injective / content_preserved (hypotheses wfParams, Clean)",
 					What:  fmt.Sprintf("a hypothesis of the global theorems fails on a run they are said to cover: wfParams=%v (signature accepted by the compiler) cleanB=%v (all leaves missing or regular files/directories inside the pipestance)", wf, clean),
